@@ -7,6 +7,7 @@ Props/C02x and C01 (`isa_refines`: the microprogram implements `Isa.step`).
 -/
 import Emu2a.Props.C02x.DecodeMem
 import Emu2a.Props.C01
+import Emu2a.Props.C07
 namespace Emu2a.C02
 open Emu2a Emu2a.Asm Emu2a.Isa Gen Emu2a.C01
 
@@ -68,5 +69,54 @@ theorem jmp_runs (c : Core) (a : Arch) (h : AtFetch c a) (hint : c.pendInt = fal
   rw [hs] at hstep
   cases hstep
   exact ⟨n, hn, hf⟩
+
+theorem holds_of_reads (a : Arch) (bs : List Nat) (k0 : Nat)
+    (h : ∀ k (hk : k < bs.length), a.rd (a.pc + BitVec.ofNat 8 (k0 + k)) = BitVec.ofNat 8 bs[k]) : Holds a k0 bs := by
+  induction bs generalizing k0 with
+  | nil => trivial
+  | cons b bs ih =>
+    refine ⟨?_, ih (k0 + 1) ?_⟩
+    · have := h 0 (by simp)
+      simp only [Nat.add_zero, List.getElem_cons_zero] at this
+      exact this
+    · intro k hk
+      have := h (k + 1) (by simp; omega)
+      simp only [List.getElem_cons_succ] at this
+      rw [show k0 + 1 + k = k0 + (k + 1) by omega]
+      exact this
+
+/-- After a program has been loaded, memory from address 0 holds the first bytes of its image: the
+hypothesis `Holds` of the decode theorems is what `Machine.load` establishes. -/
+theorem holds_after_load (m m' : Machine) (img : List Byte) (ss : Stacksize) (ps : Programsize)
+    (h : m.load img ss ps = some m') (bs : List Nat) (rest : List Byte)
+    (himg : img = bs.map (BitVec.ofNat 8) ++ rest) (a : Arch) (hb : a.bus = m'.core.bus) (hpc : a.pc = 0#8) :
+    Holds a 0 bs := by
+  obtain ⟨hlen, hram, -⟩ := C07.load_eq m m' img ss ps h
+  apply holds_of_reads
+  intro k hk
+  have hk' : k < 240 := by
+    have : bs.length ≤ img.length := by rw [himg]; simp
+    omega
+  have hget : img.getD k 0#8 = BitVec.ofNat 8 bs[k] := by
+    rw [himg]
+    simp [List.getD, List.getElem?_append_left, hk]
+  rw [hpc, Arch.rd, hb]
+  have hk8 : (0#8 + BitVec.ofNat 8 (0 + k)).toNat = k := by simp; omega
+  unfold Bus.read
+  simp only [hk8]
+  have : k ≤ C.ramTop := by simp [C.ramTop]; omega
+  simp only [this, ↓reduceDIte]
+  rw [hram k hk', hget]
+
+/-- **Assemble, load, run**: a program image that begins with the reference encoding of `LD Rd, const`,
+loaded into any machine (whatever it did before), makes the micro-machine - from its first instruction
+boundary at address 0 - arrive at a later boundary with `Rd = const`, PC = 3 and nothing else changed. -/
+theorem loaded_ld_const_runs (m m' : Machine) (img : List Byte) (ss : Stacksize) (ps : Programsize)
+    (hl : m.load img ss ps = some m') (tbl : Labels) (r : Reg) (v : Nat) (bs : List Nat) (rest : List Byte)
+    (hr : general r = true) (he : Ref.encode tbl 0 (.ldConst r (.num v)) = some bs)
+    (himg : img = bs.map (BitVec.ofNat 8) ++ rest)
+    (c : Core) (a : Arch) (hf : AtFetch c a) (hint : c.pendInt = false) (hb : a.bus = m'.core.bus) (hpc : a.pc = 0#8) :
+    ∃ n, 0 < n ∧ AtFetch (Core.iter n c) { (a.setReg r.num (BitVec.ofNat 8 v)) with pc := a.pc + 3 } :=
+  ld_const_runs c a hf hint tbl 0 r v bs hr he (holds_after_load m m' img ss ps hl bs rest himg a hb hpc)
 
 end Emu2a.C02
